@@ -60,6 +60,16 @@ use std::collections::BTreeMap;
 use std::sync::{Arc, Mutex};
 
 const WINDOW: u64 = 2;
+/// key_update_window of a configuration: 2, except for the configuration with confidentiality limit 2,
+/// where it is 3 - a window larger than the limit itself ("all limit/window settings": the update
+/// threshold then saturates at 0 and an update must be started right away)
+fn window_for(confidentiality: u64) -> u64 {
+    if confidentiality == 2 {
+        3
+    } else {
+        WINDOW
+    }
+}
 const INTEGRITY: u64 = 3;
 const PTO: Duration = Duration::from_millis(100);
 const TAG_LEN: usize = 8;
@@ -254,7 +264,7 @@ impl End {
     fn new(confidentiality: u64) -> End {
         let (key, reg) = HKey::root(confidentiality, true);
         let mut limits = Limits::default();
-        limits.key_update_window = WINDOW;
+        limits.key_update_window = window_for(confidentiality);
         End {
             ks: KeySet::new(key, limits),
             reg,
@@ -311,7 +321,7 @@ impl Net {
         }
         // The configuration handed to KeySet: an update is started once the current key has sealed
         // more than (confidentiality limit - key_update_window) packets.
-        let must_initiate = e.sealed_with(e.c) > self.confidentiality.saturating_sub(WINDOW);
+        let must_initiate = e.sealed_with(e.c) > self.confidentiality.saturating_sub(window_for(self.confidentiality));
         if !must_initiate {
             return true;
         }
@@ -645,7 +655,7 @@ impl Sys for Net {
 pub const FAMILIES: &[&str] = &["keyset"];
 
 fn configs() -> Vec<(u64, &'static str)> {
-    vec![(4, "confidentiality 4 / window 2 / integrity 3"), (3, "confidentiality 3 / window 2 / integrity 3")]
+    vec![(4, "confidentiality 4 / window 2 / integrity 3"), (3, "confidentiality 3 / window 2 / integrity 3"), (2, "confidentiality 2 / window 3 / integrity 3")]
 }
 
 pub fn run(family: &str, tier: Tier, out: &mut Output) {
@@ -656,7 +666,7 @@ pub fn run(family: &str, tier: Tier, out: &mut Output) {
     };
     let name = format!("c15.{}", family);
     for (conf, _) in configs() {
-        let cfg = Json::obj().set("confidentiality_limit", conf).set("key_update_window", WINDOW).set("integrity_limit", INTEGRITY).set("eager", eager);
+        let cfg = Json::obj().set("confidentiality_limit", conf).set("key_update_window", window_for(conf)).set("integrity_limit", INTEGRITY).set("eager", eager);
         out.push(explore("seqmc", &name, cfg, &move || Net::new(conf, eager), &Limits2::depth(tier.pick(14, 17)).wall(tier.pick(90.0, 900.0))));
     }
 }
